@@ -16,6 +16,7 @@ import (
 	"net/http"
 	"net/http/httptest"
 	"os"
+	"slices"
 	"strconv"
 	"strings"
 	"testing"
@@ -53,6 +54,7 @@ type c14Line struct {
 	Case c14Case `json:"c"`
 	Real c14Real `json:"o"`
 	Rep  int     `json:"rep"`
+	Nth  int     `json:"nth"` // 1: first presentation of the token, 2: the same token again (same cached TokenInfo)
 }
 
 const c14MetaURL = "https://rs.example.com/.well-known/oauth-protected-resource"
@@ -88,8 +90,11 @@ func c14Header(r *rand.Rand, shape, tok string) (string, bool) {
 	panic("shape " + shape)
 }
 
-func c14Run(r *rand.Rand, c c14Case) c14Real {
-	var out c14Real
+// c14Run presents the same token twice to one middleware instance whose verifier returns the same *TokenInfo
+// both times (a verifier with a cache): the property speaks about every request, so both outcomes are judged.
+func c14Run(r *rand.Rand, c c14Case) [2]c14Real {
+	var outs [2]c14Real
+	out := &outs[0]
 	now := time.Now()
 	tok := fmt.Sprintf("tok%d", r.IntN(1000))
 	skew := time.Duration(c.Skew) * time.Second
@@ -112,6 +117,11 @@ func c14Run(r *rand.Rand, c c14Case) c14Real {
 		info.Scopes = append(info.Scopes, c.Granted...)
 	}
 	r.Shuffle(len(info.Scopes), func(i, j int) { info.Scopes[i], info.Scopes[j] = info.Scopes[j], info.Scopes[i] })
+	// what the verifier hands out, value by value: the handler must see exactly this
+	snapScopes, snapExp, snapUser := append([]string{}, info.Scopes...), info.Expiration, info.UserID
+	unchanged := func(ti *auth.TokenInfo) bool {
+		return ti == info && slices.Equal(ti.Scopes, snapScopes) && ti.Expiration.Equal(snapExp) && ti.UserID == snapUser && len(ti.Extra) == 0
+	}
 	verifier := func(ctx context.Context, token string, req *http.Request) (*auth.TokenInfo, error) {
 		out.VerCalled = true
 		out.TokenOK = token == tok
@@ -144,12 +154,15 @@ func c14Run(r *rand.Rand, c c14Case) c14Real {
 	}
 	inner := http.HandlerFunc(func(w http.ResponseWriter, req *http.Request) {
 		out.Ran = true
-		out.SameInfo = auth.TokenInfoFromContext(req.Context()) == info
+		out.SameInfo = unchanged(auth.TokenInfoFromContext(req.Context()))
 		w.WriteHeader(200)
 	})
 	h := auth.RequireBearerToken(verifier, opts)(inner)
+	hv, present := c14Header(r, c.Hdr, tok)
+	for nth := 0; nth < 2; nth++ {
+	out = &outs[nth]
 	req := httptest.NewRequest("POST", "http://rs.example.com/mcp", strings.NewReader("{}"))
-	if hv, present := c14Header(r, c.Hdr, tok); present {
+	if present {
 		req.Header.Set("Authorization", hv)
 	}
 	rec := httptest.NewRecorder()
@@ -168,7 +181,8 @@ func c14Run(r *rand.Rand, c c14Case) c14Real {
 			}
 		}
 	}
-	return out
+	}
+	return outs
 }
 
 func TestVerif_C14(t *testing.T) {
@@ -209,7 +223,9 @@ func TestVerif_C14(t *testing.T) {
 	synctest.Test(t, func(t *testing.T) {
 		for _, c := range cases {
 			for rep := 0; rep < reps; rep++ {
-				enc.Encode(c14Line{Case: c, Real: c14Run(r, c), Rep: rep})
+				outs := c14Run(r, c)
+				enc.Encode(c14Line{Case: c, Real: outs[0], Rep: rep, Nth: 1})
+				enc.Encode(c14Line{Case: c, Real: outs[1], Rep: rep, Nth: 2})
 			}
 		}
 	})
